@@ -2,6 +2,7 @@ import Model.Paging
 import Model.PagingHist
 import Model.PagingRetry
 import Model.PagingWalk
+import Model.PagingFirst
 import Driver.Util
 namespace Driver.C15
 open Util Paging
@@ -482,6 +483,26 @@ def walkAnswer (full : Bool) (consumer pf ps kind script steps : String) : Strin
   | _, _ => "bad-op"
 
 
+/-! ## `first` / `firstx` op (single-row helpers Query.Scan / Query.MapScan / Query.Exec on a paged statement):
+    `first v<n> <scan|mapscan|exec> <prefetch> <pagesize> <q|x|xs|xd> <script>`; `firstx` adds the request log -/
+
+def showFirstErr : Option First.Err → String
+  | none => "nil"
+  | some .notFound => "notfound"
+  | some (.fail f) => showFail (some f)
+
+def firstAnswer (full : Bool) (helper pf ps kind script : String) : String :=
+  match ps.toInt?, parseScript script with
+  | some pageSize, some sc =>
+    if !(kind == "q" || kind == "x" || kind == "xs" || kind == "xd") then "bad-op" else
+    if !(helper == "scan" || helper == "mapscan" || helper == "exec") then "bad-op" else
+    let q : Qry := { ident := 1, prepared := kind != "q", skipMeta := kind == "xs", pageSize := pageSize,
+                     pageState := [], disableAutoPage := false }
+    let o := if helper == "exec" then First.queryExec (prefetchPos pf) sc q else First.queryScan (prefetchPos pf) sc q
+    let row := match o.row with | some r => toString r | none => "-"
+    s!"row={row} err={showFirstErr o.err}{if full then " reqs=" ++ showReqs 1 o.reqs else ""}"
+  | _, _ => "bad-op"
+
 def step (_ : Unit) (ws : List String) : Unit × String :=
   ((), match ws with
   | ["iter", consumer, pages] =>
@@ -500,6 +521,8 @@ def step (_ : Unit) (ws : List String) : Unit × String :=
   | ["rsess", ver, consumer, _, ps, kind, first, policy, script] => rsessAnswer ver consumer ps kind first policy script
   | ["walk", _, consumer, pf, ps, kind, script, steps] => walkAnswer false consumer pf ps kind script steps
   | ["walko", _, consumer, pf, ps, kind, script, steps] => walkAnswer true consumer pf ps kind script steps
+  | ["first", _, helper, pf, ps, kind, script] => firstAnswer false helper pf ps kind script
+  | ["firstx", _, helper, pf, ps, kind, script] => firstAnswer true helper pf ps kind script
   | ["rsessx", ver, consumer, _, ps, kind, first, policy, script] => rsessAnswer ver consumer ps kind first policy script
   | _ => "bad-op")
 
